@@ -34,7 +34,6 @@ import (
 	"k8s.io/apimachinery/pkg/runtime"
 	"k8s.io/apimachinery/pkg/runtime/schema"
 	k8stypes "k8s.io/apimachinery/pkg/types"
-	"k8s.io/apimachinery/pkg/util/sets"
 	"k8s.io/apimachinery/pkg/util/wait"
 	"sigs.k8s.io/controller-runtime/pkg/client"
 	"sigs.k8s.io/controller-runtime/pkg/client/fake"
@@ -50,6 +49,7 @@ import (
 	"github.com/AliyunContainerService/terway/pkg/eni"
 	"github.com/AliyunContainerService/terway/pkg/k8s"
 	"github.com/AliyunContainerService/terway/pkg/vswitch"
+	"github.com/AliyunContainerService/terway/rpc"
 	terwayTypes "github.com/AliyunContainerService/terway/types"
 	"github.com/AliyunContainerService/terway/types/daemon"
 	"github.com/AliyunContainerService/terway/zzverif/vt"
@@ -505,9 +505,39 @@ func (c *ipamCloud) DeleteNetworkInterfaceV2(ctx context.Context, eniID string) 
 
 type ipamK8s struct {
 	k8s.Kubernetes
-	c client.Client
-	w *vt.Writer
+	c     client.Client
+	w     *vt.Writer
+	rdma  bool
+	cache map[string]*daemon.PodInfo // what the real facade keeps in pod.db: the last copy seen of every pod
 }
+
+// GetPod answers from the fake API server; for a vanished pod the cached copy is returned (as pkg/k8s does).
+func (k *ipamK8s) GetPod(ctx context.Context, namespace, name string, cache bool) (*daemon.PodInfo, error) {
+	key := namespace + "/" + name
+	pod := &corev1.Pod{}
+	err := k.c.Get(ctx, client.ObjectKey{Namespace: namespace, Name: name}, pod)
+	if err != nil {
+		if k8sErr.IsNotFound(err) {
+			if pi, ok := k.cache[key]; ok {
+				return pi, nil
+			}
+		}
+		return nil, err
+	}
+	pi := &daemon.PodInfo{Name: name, Namespace: namespace, PodNetworkType: daemon.PodNetworkTypeENIMultiIP, PodUID: string(pod.UID),
+		SandboxExited: pod.Status.Phase == corev1.PodSucceeded || pod.Status.Phase == corev1.PodFailed}
+	if k.rdma {
+		for _, c := range pod.Spec.Containers {
+			if q, ok := c.Resources.Limits[corev1.ResourceName(deviceplugin.ERDMAResName)]; ok && !q.IsZero() {
+				pi.ERdma = true
+			}
+		}
+	}
+	k.cache[key] = pi
+	return pi, nil
+}
+func (k *ipamK8s) GetServiceCIDR() *terwayTypes.IPNetSet { return &terwayTypes.IPNetSet{} }
+func (k *ipamK8s) PatchPodIPInfo(info *daemon.PodInfo, ips string) error { return nil }
 
 func (k *ipamK8s) GetClient() client.Client { return k.c }
 func (k *ipamK8s) NodeName() string         { return ipamNodeName }
@@ -552,6 +582,7 @@ type ipamPod struct {
 	live   bool
 	rdma   bool
 	sbUp   bool
+	cid    string // container id of the sandbox that is up
 	e, a4, a6 int
 }
 
@@ -564,6 +595,8 @@ type ipamSys struct {
 	rec     *ReconcileNode
 	pool    *vswitch.SwitchPool
 	crd     *eni.CRDV2
+	svc     *terwayDaemon.VerifIpamService // the real CNI ADD / DEL handlers of the node daemon, CRD IPAM mode
+	nextCid int
 	k8s     *ipamK8s
 	pods    map[int]*ipamPod
 	zombies map[int]*ipamPod // pod UID -> sandbox still up although the pod object is gone
@@ -648,8 +681,9 @@ func newIpamSys(t *testing.T, w *vt.Writer, cf ipamConf, scen int) *ipamSys {
 		WithStatusSubresource(&networkv1beta1.Node{}, &networkv1beta1.NodeRuntime{}).
 		WithIndex(&corev1.Pod{}, "spec.nodeName", func(o client.Object) []string { return []string{o.(*corev1.Pod).Spec.NodeName} }).
 		WithInterceptorFuncs(funcs).Build()
-	s.k8s = &ipamK8s{c: s.c, w: w}
+	s.k8s = &ipamK8s{c: s.c, w: w, rdma: cf.rdma > 0, cache: map[string]*daemon.PodInfo{}}
 	s.crd = eni.VerifIpamNewCRDV2(s.c, ipamNodeName, terwayTypes.Scheme)
+	s.svc = terwayDaemon.VerifIpamNewService(s.k8s, eni.NewManager(0, 0, 0, 0, []eni.NetworkInterface{s.crd}, "", nil), cf.v4, cf.v6)
 	s.newReconciler()
 
 	// --- initial cloud: interfaces attached before the controller first runs
@@ -732,6 +766,23 @@ func newIpamSys(t *testing.T, w *vt.Writer, cf ipamConf, scen int) *ipamSys {
 				}
 				s.pods[p] = pd
 				s.createPodObj(p, pd, true)
+				// the daemon of the previous version has this sandbox on record
+				s.nextCid++
+				pd.cid = fmt.Sprintf("cid-%d", s.nextCid)
+				lr := &eni.LocalIPResource{ENI: daemon.ENI{ID: ipamEniID(e), MAC: s.cloud.api(e).MacAddress}}
+				if pd.a4 != 0 {
+					lr.IP.IPv4 = netip.MustParseAddr(ipamAddr(pd.a4))
+				}
+				if pd.a6 != 0 {
+					lr.IP.IPv6 = netip.MustParseAddr(ipamAddr(pd.a6))
+				}
+				pi, err := s.k8s.GetPod(context.Background(), "ns", ipamPodName(p), false)
+				if err != nil {
+					t.Fatal(err)
+				}
+				if err := s.svc.Seed(pi, pd.cid, lr.ToStore()); err != nil {
+					t.Fatal(err)
+				}
 				if cf.init == "partial" {
 					// the previous version had published (part of) the bindings: pod p%3==0 fully with UID, ==1 without UID, ==2 IPv4 only
 					mode := p % 3
@@ -948,33 +999,46 @@ func (s *ipamSys) cniAdd(p int, report bool) {
 	if pd == nil || !pd.live || pd.sbUp {
 		return
 	}
+	// kubelet: CNI ADD for a new sandbox of this pod, through the real handler (it resolves the pod, reads the stored
+	// record, asks the CRD backend, stores the new record). The backend polls the record until the request context ends.
 	ctx, cancel := context.WithTimeout(context.Background(), 60*time.Millisecond)
 	defer cancel()
-	var req eni.ResourceRequest = eni.NewLocalIPRequest()
-	ch, _ := s.crd.Allocate(ctx, &daemon.CNI{PodName: ipamPodName(p), PodNamespace: "ns", PodID: ipamPodID(p), PodUID: ipamUID(pd.uid)}, req)
+	s.nextCid++
+	cid := fmt.Sprintf("cid-%d", s.nextCid)
 	ok, e, a4, a6 := false, 0, 0, 0
+	type addRes struct {
+		reply *rpc.AllocIPReply
+		err   error
+	}
+	ch := make(chan addRes, 1)
+	go func() {
+		r, err := s.svc.AllocIP(ctx, &rpc.AllocIPRequest{K8SPodName: ipamPodName(p), K8SPodNamespace: "ns", K8SPodInfraContainerId: cid, Netns: "/proc/0/ns/net", IfName: "eth0"})
+		ch <- addRes{r, err}
+	}()
 	select {
-	case resp := <-ch:
-		if resp != nil && resp.Err == nil && len(resp.NetworkConfigs) == 1 {
-			if lr, isLocal := resp.NetworkConfigs[0].(*eni.LocalIPResource); isLocal {
-				ok, e = true, ipamEniNum(lr.ENI.ID)
-				if lr.IP.IPv4.IsValid() {
-					a4 = ipamAddrNum(lr.IP.IPv4.String())
+	case res := <-ch:
+		if res.err == nil && res.reply != nil && res.reply.Success && len(res.reply.NetConfs) == 1 {
+			nc := res.reply.NetConfs[0]
+			if nc.BasicInfo != nil && nc.BasicInfo.PodIP != nil && nc.ENIInfo != nil {
+				ok = true
+				fmt.Sscanf(nc.ENIInfo.MAC, "00:16:3e:00:00:%02x", &e)
+				if nc.BasicInfo.PodIP.IPv4 != "" {
+					a4 = ipamAddrNum(nc.BasicInfo.PodIP.IPv4)
 				}
-				if lr.IP.IPv6.IsValid() {
-					a6 = ipamAddrNum(lr.IP.IPv6.String())
+				if nc.BasicInfo.PodIP.IPv6 != "" {
+					a6 = ipamAddrNum(nc.BasicInfo.PodIP.IPv6)
 				}
 			}
 		}
-	case <-time.After(400 * time.Millisecond):
-		// no address in the record: multiIP polls until the request context ends and then drops its (negative) answer
+	case <-time.After(10 * time.Second):
+		s.t.Fatalf("AllocIP did not return")
 	}
 	if ok {
 		// multiIP forgets a pending DEL of this UID in its own goroutine, after the reply: wait for that (bounded)
 		for i := 0; i < 150 && s.crd.VerifIpamDelPending(ipamUID(pd.uid)); i++ {
 			time.Sleep(2 * time.Millisecond)
 		}
-		pd.sbUp, pd.e, pd.a4, pd.a6 = true, e, a4, a6
+		pd.sbUp, pd.cid, pd.e, pd.a4, pd.a6 = true, cid, e, a4, a6
 	}
 	s.w.Emit(vt.M{"ev": "cni_add", "p": p, "u": pd.uid, "ok": ok, "e": e, "a4": a4, "a6": a6})
 	if ok && report { // kubelet reports the sandbox addresses in the pod status
@@ -992,25 +1056,11 @@ func (s *ipamSys) cniAdd(p int, report bool) {
 	}
 }
 
-func (s *ipamSys) cniDel(p, uid int) {
-	_, err := s.crd.Release(context.Background(), &daemon.CNI{PodName: ipamPodName(p), PodNamespace: "ns", PodID: ipamPodID(p), PodUID: ipamUID(uid)}, &eni.LocalIPResource{})
-	if err != nil {
-		s.t.Fatalf("release: %v", err)
-	}
-	s.w.Emit(vt.M{"ev": "cni_del", "p": p, "u": uid})
-}
-
-func (s *ipamSys) localUIDs() sets.Set[string] {
-	r := sets.New[string]()
-	for _, pd := range s.pods {
-		if pd.sbUp {
-			r.Insert(ipamUID(pd.uid))
-		}
-	}
-	for u := range s.zombies {
-		r.Insert(ipamUID(u))
-	}
-	return r
+// cniDel: kubelet tears down the sandbox cid that was set up for pod p with UID uid (what the handler makes of it -
+// which pod it resolves, whether the stored record still belongs to that sandbox - is the daemon's business).
+func (s *ipamSys) cniDel(p, uid int, cid string) {
+	_, err := s.svc.ReleaseIP(context.Background(), &rpc.ReleaseIPRequest{K8SPodName: ipamPodName(p), K8SPodNamespace: "ns", K8SPodInfraContainerId: cid})
+	s.w.Emit(vt.M{"ev": "cni_del", "p": p, "u": uid, "ok": err == nil})
 }
 
 func (s *ipamSys) step(st vt.M) {
@@ -1034,7 +1084,7 @@ func (s *ipamSys) step(st vt.M) {
 		}
 		forced := vt.Bool(st["forced"])
 		if pd.sbUp && !forced { // graceful: kubelet tears the sandbox down before the object disappears
-			s.cniDel(p, pd.uid)
+			s.cniDel(p, pd.uid, pd.cid)
 			pd.sbUp = false
 		}
 		if err := s.c.Delete(ctx, &corev1.Pod{ObjectMeta: metav1.ObjectMeta{Namespace: "ns", Name: ipamPodName(p)}}); err != nil {
@@ -1068,8 +1118,15 @@ func (s *ipamSys) step(st vt.M) {
 		s.cniAdd(vt.Int(st["p"]), !vt.Bool(st["noreport"]))
 	case "cni_del":
 		p := vt.Int(st["p"])
-		if pd := s.pods[p]; pd != nil && pd.sbUp {
-			s.cniDel(p, pd.uid)
+		old := vt.Bool(st["old"]) // the late DEL of a vanished pod's sandbox comes first
+		hasOld := false
+		for u := range s.zombies {
+			if s.zombieP[u] == p {
+				hasOld = true
+			}
+		}
+		if pd := s.pods[p]; pd != nil && pd.sbUp && !(old && hasOld) {
+			s.cniDel(p, pd.uid, pd.cid)
 			pd.sbUp = false
 			return
 		}
@@ -1081,7 +1138,7 @@ func (s *ipamSys) step(st vt.M) {
 		}
 		sort.Ints(us)
 		if len(us) > 0 {
-			s.cniDel(s.zombieP[us[0]], us[0])
+			s.cniDel(s.zombieP[us[0]], us[0], s.zombies[us[0]].cid)
 			delete(s.zombies, us[0])
 			delete(s.zombieP, us[0])
 		}
@@ -1099,7 +1156,7 @@ func (s *ipamSys) step(st vt.M) {
 	case "daemon_gc":
 		s.age()
 		s.rtBy = "daemon"
-		err := terwayDaemon.VerifIpamCleanRuntimeNode(ctx, s.k8s, s.localUIDs())
+		err := s.svc.CleanRuntimeNode(ctx)
 		s.w.Emit(vt.M{"ev": "daemon_gc", "ok": err == nil})
 	case "reconcile":
 		s.reconcile(vt.Str(st["write"]), vt.Bool(st["full"]))
@@ -1288,7 +1345,7 @@ func ipamRandomScenario(k int, env string, skip map[string]bool) []vt.M {
 		}
 		return m
 	}
-	fams := []string{"random", "lifecycle", "resandbox", "shrink", "faulty", "rollback", "rdma", "gcstale", "adopt"}
+	fams := []string{"random", "lifecycle", "resandbox", "shrink", "faulty", "rollback", "rdma", "gcstale", "adopt", "replace"}
 	fam := fams[k%len(fams)]
 	if skip[fam] {
 		fam = "random"
@@ -1299,6 +1356,9 @@ func ipamRandomScenario(k int, env string, skip map[string]bool) []vt.M {
 	}
 	if fam == "adopt" {
 		n = 0
+	}
+	if fam == "replace" {
+		n = rng.Intn(3)
 	}
 	for i := 0; i < n; i++ {
 		p := 1 + rng.Intn(4)
@@ -1391,6 +1451,27 @@ func ipamRandomScenario(k int, env string, skip map[string]bool) []vt.M {
 		}
 		sc = append(sc, vt.M{"a": "plan", "outcomes": outs}, vt.M{"a": "reconcile", "write": []string{"", "conflict", "error"}[rng.Intn(3)]}, rec(),
 			vt.M{"a": "plan", "outcomes": []any{ipamFaults[rng.Intn(len(ipamFaults))]}}, rec(), rec())
+	case "replace":
+		// StatefulSet-style name re-use: pod 1 runs, its object vanishes (or it is deleted gracefully), a replacement of
+		// the same name appears on the node; the DEL of the old sandbox arrives late - before or after the replacement's
+		// ADD; later the replacement goes away as well
+		sc = append(sc, vt.M{"a": "pod_create", "p": 1}, vt.M{"a": "pod_create", "p": 2}, vt.M{"a": "reconcile"}, vt.M{"a": "reconcile"},
+			vt.M{"a": "cni_add", "p": 1}, vt.M{"a": "cni_add", "p": 2})
+		if rng.Intn(4) == 0 {
+			sc = append(sc, vt.M{"a": "sync_deleted"})
+		}
+		forced := rng.Intn(4) != 0
+		sc = append(sc, vt.M{"a": "pod_delete", "p": 1, "forced": forced}, vt.M{"a": "pod_create", "p": 1})
+		if rng.Intn(2) == 0 {
+			sc = append(sc, rec())
+		}
+		if rng.Intn(2) == 0 { // the late DEL first, then the replacement's ADD
+			sc = append(sc, vt.M{"a": "cni_del", "p": 1, "old": true}, vt.M{"a": "flush"}, rec(), vt.M{"a": "cni_add", "p": 1})
+		} else { // the replacement's ADD overtakes the late DEL
+			sc = append(sc, rec(), vt.M{"a": "cni_add", "p": 1}, vt.M{"a": "cni_del", "p": 1, "old": true}, vt.M{"a": "flush"})
+		}
+		sc = append(sc, rec(), vt.M{"a": "flush"}, vt.M{"a": "pod_delete", "p": 1, "forced": rng.Intn(2) == 0}, vt.M{"a": "pod_create", "p": 3}, rec(),
+			vt.M{"a": "cni_add", "p": 3}, vt.M{"a": "cni_del", "p": 1}, vt.M{"a": "flush"}, rec())
 	case "adopt":
 		// dual stack, running pods of a previous version report both addresses; the IPv6 side of some of them cannot be
 		// bound (its address vanished in the cloud, or the record binds only part), with and without new pods competing
